@@ -14,6 +14,21 @@ func init() {
 	register("C06", "T-DEPTH", ruleTDepth)
 	register("C06", "T-LOOP", ruleTLoop)
 
+	// C05 = the C04 non-interference argument + build-time write census + cache lockset
+	register("C05", "S-ENTRY", ruleSEntry)
+	register("C05", "S-CLONE", ruleSClone)
+	register("C05", "S-SHARED", ruleSShared)
+	register("C05", "S-WRITES", ruleSWritesRT)
+	register("C05", "S-WRITES-BT", ruleSWritesBT)
+	register("C05", "S-GLOBAL", ruleSGlobal)
+	register("C05", "S-POOL", ruleSPool)
+	register("C05", "K-LOCK", ruleKLock)
+
+	register("C16", "K-LOCK", ruleKLock)
+	register("C16", "K-REST", ruleKRest)
+	register("C16", "K-PRE", ruleKPre)
+	register("C16", "S-GLOBAL", ruleSGlobal)
+
 	register("C02", "S-RESET", ruleSReset)
 	register("C02", "S-PROP", ruleSProp)
 }
